@@ -424,6 +424,9 @@ def hyp_cases(draw, tier):
 RULE_ROUND8 = ' One random case in six filters a BIG tree: the many siblings get one common verdict (so that > 32 / 64 / 128 nodes go or stay below one parent), inner nodes and a few leaves generated ones. Verdict forms 4 / 5: instances of application-defined subclasses of SkipBranch / SelectBranch / StopTraversal, returned / raised. Part python-O: both parts with PYTHONOPTIMIZE=1.'
 RULE = RULE + RULE_ROUND8
 
+RULE_ROUND9 = " Sources carry annotations on every second node; after each copying form the copy's nodes are annotated and the source must be unchanged."
+RULE = RULE + RULE_ROUND9
+
 PARTS = [
     Part("verdicts", run, enum=enum_cases),
     Part("random-verdicts", run, strategy=lambda tier: hyp_cases(tier), n={"quick": 1000, "thorough": 150000}),
